@@ -141,7 +141,14 @@ def _build(ir, r, ctor=True):
                 inv.constants(**{name: 'child' for name, _ in kw})
         return inv
     if k == 'Ref':
-        return glom.Ref(ir[1]) if ir[2] is None else glom.Ref(ir[1], B(ir[2]))
+        if ir[2] is None:
+            # one bare Ref object per name and spec: a reference may be shared between positions (under different definitions of the
+            # name, in sibling branches, across calls) — what it resolves to is decided by where it is evaluated, every time
+            memo = r.__dict__.setdefault('_bare_refs', {})
+            if ir[1] not in memo:
+                memo[ir[1]] = glom.Ref(ir[1])
+            return memo[ir[1]]
+        return glom.Ref(ir[1], B(ir[2]))
     if k == 'Fill':
         return glom.Fill(B(ir[1]))
     if k == 'Auto':
